@@ -499,6 +499,9 @@ class VM:
                     elif isinstance(value, JSObject):
                         obj._prototype = value
                 else:
+                    # (a data property replaces an accessor of that name written before it)
+                    obj._getters.pop(key_str, None)
+                    obj._setters.pop(key_str, None)
                     obj.set(key_str, value)
             self.stack.append(obj)
 
